@@ -8,6 +8,13 @@
 use core::sync::atomic::{AtomicU32, Ordering};
 
 static DEPTH: AtomicU32 = AtomicU32::new(0);
+static SITE: AtomicU32 = AtomicU32::new(0);
+
+/// Identifiers of the marked allocator call sites (for coverage statistics only).
+pub const SITE_BUFFER_ALLOC: u32 = 1;
+pub const SITE_BUFFER_REALLOC: u32 = 2;
+pub const SITE_BOXED_SLICE: u32 = 3;
+pub const SITE_SCRATCH: u32 = 4;
 
 /// RAII marker for an allocator call whose failure is handled by the caller.
 pub struct FallibleSite(());
@@ -17,6 +24,13 @@ impl FallibleSite {
     pub fn enter() -> Self {
         DEPTH.fetch_add(1, Ordering::Relaxed);
         FallibleSite(())
+    }
+
+    /// Like [FallibleSite::enter], also recording which call site it is.
+    #[inline]
+    pub fn enter_at(site: u32) -> Self {
+        SITE.store(site, Ordering::Relaxed);
+        Self::enter()
     }
 }
 
@@ -31,4 +45,10 @@ impl Drop for FallibleSite {
 #[inline]
 pub fn in_fallible_site() -> bool {
     DEPTH.load(Ordering::Relaxed) > 0
+}
+
+/// The most recently entered site (one of the `SITE_*` constants, 0 if unknown).
+#[inline]
+pub fn current_site() -> u32 {
+    SITE.load(Ordering::Relaxed)
 }
